@@ -153,3 +153,52 @@ def elements(value_lines):
             prev = s[i:j]
             yield ("bare", prev, None)
             i = j
+
+
+def brackets(value_lines):
+    """Bracket structure of a value outside quotes and units: yields
+    ('open', char, depth_after, enclosing_brackets) and
+    ('close', char, depth_after, number_of_members) events and
+    ('member', kind, text, stack) for each lexical member, where stack is the
+    string of currently open brackets."""
+    s = "\n".join(value_lines)
+    i, n = 0, len(s)
+    stack = []
+    counts = []
+    while i < n:
+        ch = s[i]
+        if ch in "\"'":
+            j = s.find(ch, i + 1)
+            j = n - 1 if j < 0 else j
+            if counts:
+                counts[-1] += 1
+            yield ("member", "double" if ch == '"' else "single", s[i + 1:j],
+                   "".join(stack))
+            i = j + 1
+        elif ch == "<":
+            j = s.find(">", i + 1)
+            j = n - 1 if j < 0 else j
+            yield ("member", "units", s[i + 1:j], "".join(stack))
+            i = j + 1
+        elif ch in "({":
+            if counts:
+                counts[-1] += 1
+            yield ("open", ch, len(stack) + 1, "".join(stack))
+            stack.append(ch)
+            counts.append(0)
+            i += 1
+        elif ch in ")}":
+            if stack:
+                stack.pop()
+                yield ("close", ch, len(stack), counts.pop())
+            i += 1
+        elif ch in " \n\r\t,;":
+            i += 1
+        else:
+            j = i
+            while j < n and s[j] not in " \n\r\t,(){};<\"'":
+                j += 1
+            if counts:
+                counts[-1] += 1
+            yield ("member", "bare", s[i:j], "".join(stack))
+            i = j
